@@ -16,7 +16,7 @@ CONSTANTS
   Kinds = {"SubscribeEvent", "UnsubscribeEvent", "EmitEvent", "SubscribeService", "UnsubscribeService", "SubscribeAllEvents", "UnsubscribeAllEvents", "DestroyService"}
   Faults = {"ends", "dropped"}
   WrongKinds = {}
-  MsgBudget = 4
+  MsgBudget = 3
   ScriptSel = "svc"
   V0 = 20
   V1 = 20
